@@ -253,9 +253,9 @@ def prepare(vg, spec, nvals, rng):
     return names, vals, eff, rt_of
 
 
-def corr_and_pt(ctx, ncases):
+def corr_and_pt(ctx, ncases, extra=True):
     cases = []
-    for text in EXTRA_TEXTS:
+    for text in (EXTRA_TEXTS if extra else []):
         d0 = asn1tools.parse_string(text)
         hist = gen_history(ctx.rng)
         states = run_history_impl(ctx, text, d0, hist, [], {}, {}, None)
@@ -343,7 +343,9 @@ def corr_and_pt(ctx, ncases):
                 ctx.violation('the model\'s history runner ends in a different dictionary than /repo',
                               dict(kind='corr-run', spec=c['text'], history=c['hist']))
         agree += ok
-    ctx.extra['model_vs_implementation'] = {'cases': len(cases), 'agree': agree}
+    mv = ctx.extra.setdefault('model_vs_implementation', {'cases': 0, 'agree': 0})
+    mv['cases'] += len(cases)
+    mv['agree'] += agree
     ctx.log('correspondence: %d/%d histories agree with the model' % (agree, len(cases)))
 
 
@@ -451,6 +453,11 @@ def run(ctx):
     if w is not None:
         ctx.violation('numeric_enums=True leaks into a later compile of the same dictionary: %r' % (w,),
                       dict(kind='witness', **WITNESS))
-    corr_and_pt(ctx, 45 if ctx.quick else 600)
+    total = 70 if ctx.quick else 600
+    done = 0
+    while done < total:
+        n = min(50, total - done)
+        corr_and_pt(ctx, n, extra=done == 0)
+        done += n
     if not ok:
         common.proof_broken(ctx)
